@@ -478,6 +478,30 @@ def run(report, p):
                  "e.g. `-h md5 -h xxh64` then `-h xxh64 -h sha1` on an untouched file aborts with AssertionError('no hash entry found for new hash')", construct="sealer never generates the validator's reference format")
 
     # ---- rules shared with other properties (same mechanism, same rule, reported under every property it can break)
+    # ------------------------------------------------------------------ R4.8
+    r8 = report.rule(
+        "R4.8",
+        "tables keyed by hash format are total: a dictionary of the package whose keys are hash format names (cost / priority / label tables) has an entry for every format the "
+        "command line accepts (`ascmhl_supported_hashformats`) - a lookup for a missing one yields None or KeyError in the middle of a run, and `every sequence of format choices "
+        "succeeds` no longer holds for sequences containing that format",
+        1,
+    )
+    dom = p.module_const(p.modules["ascmhl.__version__"], "ascmhl_supported_hashformats")
+    if not isinstance(dom, list) or not dom:
+        raise AnalysisError("ascmhl_supported_hashformats not found")
+    r8.instance(None, None, f"format domain {dom}")
+    for m in p.modules.values():
+        if m.name in unshipped:
+            continue
+        for n in ast.walk(m.tree):
+            if isinstance(n, ast.Dict) and len(n.keys) >= 3 and all(isinstance(k, ast.Constant) and isinstance(k.value, str) for k in n.keys):
+                keys = [k.value for k in n.keys]
+                if sum(1 for k in keys if k in dom) >= 3 and all(k in dom or k in ("xxh32",) for k in keys):
+                    r8.instance(None, n, f"{m.name}: table over {keys}")
+                    missing = [d for d in dom if d not in keys]
+                    r8.check(not missing, None, n, f"the format table {{{', '.join(keys)}}} in {m.name} has no entry for {missing}: a run in which such a format is looked up fails with None / KeyError although the format is accepted by -h", construct=f"{m.name}: format table without {missing}")
+    r8.check(True, None, None, "")
+
     include_rules(report, p, 'c08', ['R8.8'], 'whether a digest is original / verified / failed / new is decided against the entries of the history that holds the file: lookups are made on the routed history with the routed path')
     include_rules(report, p, 'c03', ['R3.11'], 'a failed check is only recorded if reporting it cannot raise: the mismatch is logged before the generation is written')
     include_rules(report, p, 'c08', ['R8.1'], 'the first recorded value is looked up in the history that owns the path')
